@@ -60,6 +60,9 @@ KNOWN = {
     "py-enum-decode": "Python decode of enums whose value does not fit the first byte-chunk raises ValueError",
     "go-unqualified-nested": "Go output references a type nested in a message of an imported file unqualified",
     "go-O-late-import": "Go -O output places `import` of child protos after var declarations (rejected by Go)",
+    "py-unqualified-nested": "Python output references a type nested in a message of an imported file unqualified (NameError)",
+    "py-generated-broken": "generated Python module fails at import time (interpreter not involved)",
+    "py-encode-error": "generated Python raises while encoding an in-range value (interpreter not involved)",
 }
 
 
@@ -225,10 +228,13 @@ def check_schema(path: str, tmp: str, verbose: bool, findings: List[Finding], st
     try:
         try:
             pymod = importlib.import_module(os.path.splitext(os.path.basename(pyouts[proto.filepath]))[0])
-        except Exception as e:  # generated python broken: genuine bitproto problem, not ours
-            findings.append(Finding(path, "py", None, "python-import", f"{type(e).__name__}: {e}", known=None))
+        except Exception as e:
+            # The generated Python does not even import: the Go interpreter is not involved, so this is a
+            # bitproto (Python generator) defect by construction.  Go is still checked (round trip only).
+            known = "py-unqualified-nested" if isinstance(e, NameError) and list(proto.protos(recursive=False)) else "py-generated-broken"
+            findings.append(Finding(path, "py", None, "python-import", f"{type(e).__name__}: {e}", known=known))
             row["mismatches"] += 1
-            return
+            pymod = None
         for opt in (False, True):
             mode = "go-O" if opt else "go"
             godir = os.path.join(tmp, name + ("_goO" if opt else "_go"))
@@ -296,15 +302,14 @@ def run_mode(path, mode, proto: BA.Proto, goouts: Dict[str, str], pymod, feats, 
             findings.append(Finding(path, mode, go_name, "harness", "Go struct not found in generated package"))
             row["mismatches"] += 1
             continue
-        pycls = getattr(pymod, py_name, None)
-        if pycls is None:
+        pycls = getattr(pymod, py_name, None) if pymod is not None else None
+        if pycls is None and pymod is not None:
             findings.append(Finding(path, mode, py_name, "harness", "Python class not found in generated module"))
             row["mismatches"] += 1
             continue
         if mode == "go":
             row["messages"] += 1
         go_desc = prog.type_info(main_pkg, go_name)
-        size = prog.const(main_pkg, f"BYTES_LENGTH_{_upper_name(gofmt, msg)}")[0] if False else None
         for vi in range(VECTORS):
             row["vectors"] += 1
             try:
@@ -312,19 +317,22 @@ def run_mode(path, mode, proto: BA.Proto, goouts: Dict[str, str], pymod, feats, 
                 ref = prog.new(main_pkg, go_name)
                 prog.set_py(ref, go_v)
                 want = prog.get_py(ref)
-                pyobj = pycls()
-                py_apply(pyobj)
-                try:
-                    enc_py = bytes(pyobj.encode())
-                except Exception as e:
-                    findings.append(Finding(path, mode, go_name, "python-encode-error", f"{type(e).__name__}: {e}"))
-                    row["mismatches"] += 1
-                    break
+                enc_py = None
+                if pycls is not None:
+                    pyobj = pycls()
+                    py_apply(pyobj)
+                    try:
+                        enc_py = bytes(pyobj.encode())
+                    except Exception as e:
+                        findings.append(Finding(path, mode, go_name, "python-encode-error", f"{type(e).__name__}: {e}",
+                                                known="py-encode-error"))
+                        row["mismatches"] += 1
+                        pycls = None
                 enc_go = prog.call_method(ref, "Encode")
                 if prog.get_py(ref) != want:
                     findings.append(Finding(path, mode, go_name, "encode-mutated-value", f"vector {vi}"))
                     row["mismatches"] += 1
-                if enc_go != enc_py:
+                if enc_py is not None and enc_go != enc_py:
                     findings.append(Finding(path, mode, go_name, "encode-mismatch",
                                             f"vector {vi}: go={enc_go.hex()} py={enc_py.hex()} value={go_v}"))
                     row["mismatches"] += 1
@@ -353,10 +361,6 @@ def run_mode(path, mode, proto: BA.Proto, goouts: Dict[str, str], pymod, feats, 
                 break
     if verbose:
         print(f"  {os.path.basename(path)} [{mode}] {time.time() - t0:.2f}s")
-
-
-def _upper_name(gofmt, msg):  # pragma: no cover - unused helper kept for clarity
-    return msg.name
 
 
 # ---------------------------------------------------------------------------
